@@ -284,6 +284,34 @@ def restored_fields_not_clobbered(chk: Check, rule: str = 'SYM-default-before-re
                 chk.ob(rule, init, False, f'init() runs after the saved state was loaded and assigns the persisted field {x.attr}: what the checkpoint said is overwritten '
                        '(the loaded process differs from the saved one, and saving it again gives another bundle)', node=x, kind=f'init-clobbers:{x.attr}')
     chk.ob(rule, init, True, f'init() assigns {n} attribute(s), none of them persisted ({sorted(persisted)})', kind='init-runtime-only')
+    # the same for every load_instance_state of a savable class: once the members are restored (super().load_instance_state / load_members), assigning an
+    # AUTO-PERSISTED member from anything but the saved state overwrites what the checkpoint said (``self.in_state = True`` "because a state is only loaded as the
+    # current one": a save taken from an entering hook has the old state already exited)
+    savable = prog.cls('persistence.Savable')
+    m = 0
+    for k in prog.subclasses(savable):
+        lf = k.methods.get('load_instance_state')
+        if lf is None:
+            continue
+        lf = prog.view(lf)
+        auto = set(auto_persist_set(prog, k))
+        if not auto:
+            continue
+        restore = [c for c in calls_in_func(lf) if (last_name(c) == 'load_instance_state' and isinstance(c.func, ast.Attribute) and isinstance(c.func.value, ast.Call)
+                                                    and norm(c.func.value.func) == 'super') or last_name(c) == 'load_members']
+        if not restore:
+            continue
+        after = min(c.lineno for c in restore)
+        state_p = lf.params[1] if len(lf.params) > 1 else 'saved_state'
+        for x in ast.walk(lf.node):
+            if isinstance(x, ast.Assign) and x.lineno > after:
+                for t in x.targets:
+                    if is_self_attr(t) and t.attr in auto:
+                        m += 1
+                        from_state = any(isinstance(y, ast.Name) and y.id == state_p for y in ast.walk(x.value))
+                        chk.ob(rule, lf, from_state, f'{k.name}.load_instance_state assigns the auto-persisted member {t.attr} after the members were restored, and not from the saved '
+                               'state: what the checkpoint said is overwritten (loading and saving again gives another bundle)', node=x, kind=f'load-clobbers:{k.name}.{t.attr}')
+    chk.units['auto_persisted_members_reassigned_on_load'] = m
 
 
 def inputs_encoded_by_deepcopy(chk: Check, rule: str) -> None:
@@ -332,10 +360,29 @@ def falsy_values_survive(chk: Check, rule: str) -> None:
         keys = [prog.fold(pl.module, x.slice) for b in t.body for x in ast.walk(b) if isinstance(x, ast.Subscript) and norm(x.value) == pl.params[1]]
         tg = [norm(a.targets[0]) for b in t.body for a in ast.walk(b) if isinstance(a, ast.Assign) and is_self_attr(a.targets[0])]
         df = [(norm(a.targets[0]), a.value) for h in hs for b in h.body for a in ast.walk(b) if isinstance(a, ast.Assign) and is_self_attr(a.targets[0])]
+        if not df:
+            # the defaults set ahead of the try (``self._outputs = {}`` ; ``try: self._outputs = decode(saved_state[OUTPUTS])`` ; ``except KeyError: pass``)
+            before = [a for a in ast.walk(pl.node) if isinstance(a, ast.Assign) and is_self_attr(a.targets[0]) and a.lineno < t.lineno and norm(a.targets[0]) in tg]
+            last = {}
+            for a in sorted(before, key=lambda x: x.lineno):
+                last[norm(a.targets[0])] = a.value
+            df = list(last.items())
+        # one try, one key: with several optional keys read under ONE handler a missing earlier key leaves the later ones unread (a process started without inputs
+        # would lose its outputs on restore)
+        pairs = []
+        for b in t.body:
+            for a in ast.walk(b):
+                if isinstance(a, ast.Assign) and is_self_attr(a.targets[0]):
+                    ks = [prog.fold(pl.module, x.slice) for x in ast.walk(a.value) if isinstance(x, ast.Subscript) and norm(x.value) == pl.params[1]]
+                    pairs += [(k_, norm(a.targets[0])) for k_ in ks]
+        if len(keys) > 1:
+            chk.ob(rule, pl, False, f'each optional key is restored under its own KeyError handler: {sorted(str(k) for k in keys)} share one, a missing one leaves those read after it '
+                   'unrestored', node=t, kind='keys-restored-independently')
         for k in keys:
             for a_, d_ in df:
-                if a_ in tg and isinstance(k, str):
+                if a_ in tg and isinstance(k, str) and ((k, a_) in pairs or len(keys) == 1):
                     absent[k] = (a_, d_)
+    chk.ob(rule, pl, True, 'optional keys of the saved state are restored one per handler', kind='keys-restored-independently:checked')
     n = 0
     for m in fs.cfg.nodes:
         a_ = m.ast
@@ -357,6 +404,9 @@ def falsy_values_survive(chk: Check, rule: str) -> None:
 
 def run(chk: Check) -> None:
     prog = chk.prog
+    # a bundle taken inside a nested outline block loads into the same block (shared with C08)
+    from .c08 import child_selector_agreement
+    child_selector_agreement(chk, 'SYM-key-agreement')
     ctx = chk.ctx
     classes = savable_classes(prog)
     chk.floor('SYM-classes', len(classes), 20)
